@@ -8,14 +8,13 @@ EXPLANATION = ("All paths of the TCP connection constructor are enumerated (path
                "Ok paths without TLS are those for `ldap` without StartTLS; W2 on StartTLS paths exactly one LDAP operation is issued "
                "before the handshake - extended(StartTLS) - the driver turn's result and `success()?` of the response are both required "
                "(Ok) before into_parts / the handshake, `ldaps` paths issue no LDAP operation before the handshake, and the handle is not "
-               "cloned; W3 the TLS transport is framed with a fresh Framed built from parts.io and parts.codec only - Framed::from_parts, "
-               "which would keep cleartext bytes read before the handshake, is never called; W4 the request to skip certificate verification is the public call set_no_tls_verify(true): the private field it writes and "
+               "cloned; W3 the transport the connection ends up with is read as what it is built from, whichever constructor spells it (Framed::new, Decoder::framed, FramedParts::new + Framed::from_parts, each modelled after tokio_util): it runs over the stream the handshake returned, the handshake ran on the socket taken out of the cleartext transport, the codec is the cleartext transport's, and its read and write buffers start empty - a buffer of the cleartext transport carried over (assigned into the new parts, or the old parts reused) would have cleartext bytes decoded inside the protected session; of the old transport's parts only io and codec flow anywhere; a transport is rebuilt from parts nowhere else; W4 the request to skip certificate verification is the public call set_no_tls_verify(true): the private field it writes and "
                "the value that stands for the request are read from the setter (not from a name); every body that builds a settings value "
                "(new, the Default impl - derived or hand-written -, Clone) leaves that field at 'not requested'; the default connector / "
                "configuration disables verification exactly on the paths that found the request in the field, is built from the "
                "connection's own settings, a caller-supplied connector is used as given, and the handshake is given the URL's host name; "
                "W5/W7/W8 the settings' Clone keeps, and the starttls() getter returns, what the setters recorded (fields anchored by role). Not decided: what native-tls / rustls verify (trusted); server behaviours as runtime events.")
-TRUSTED = ['native-tls / rustls certificate and host name verification', 'tokio_util Framed::into_parts / Decoder::framed']
+TRUSTED = ['native-tls / rustls certificate and host name verification', 'tokio_util Framed::into_parts / Framed::new / Framed::from_parts / FramedParts::new / Decoder::framed behave as modelled in transport_of (read from tokio-util 0.7 source)']
 UNDECIDED = ['TLS library behaviour', 'server behaviour at run time']
 ASSUMPTIONS = []
 CONFIGS = ['default', 'rustls']
